@@ -107,8 +107,9 @@ pub async fn run_case(setup: String, events: String, take: bool) -> String {
             let cseq: u64 = parts[1].parse().unwrap();
             let nus: usize = parts[2].parse().unwrap();
             let branch = format!("z9hG4bKinv{}", i);
+            // the request that creates the callee-side dialog: an INVITE unless the setup names another method (S:<cseq>:<n>:<METHOD>)
             let text = request_text(
-                "INVITE",
+                parts.get(3).copied().unwrap_or("INVITE"),
                 &format!("c{}", i),
                 Some(&format!("p{}", i)),
                 None,
